@@ -336,3 +336,28 @@ async fn spent_input_is_refused_for_every_checked_type() {
         }
     }
 }
+
+/// C03: winding a transaction spends its inputs and creates its outputs; unwinding it gives the inputs back and removes the
+/// outputs — the spendable set after wind + unwind is what it was
+#[test]
+fn wind_then_unwind_restores_the_spendable_set() {
+    use crate::core::defs::UtxoSet;
+    let mut rng = Rng::from_env();
+    for round in 0..500 {
+        let mut utxo: UtxoSet = Default::default();
+        let mut tx = Transaction::default();
+        let n_in = 1 + rng.below(3); let n_out = 1 + rng.below(3);
+        for i in 0..n_in { let mut s = Slip::default(); s.public_key = [1u8; 33]; s.amount = if rng.below(4) == 0 { 0 } else { 1 + rng.below(1000) }; s.block_id = 2; s.tx_ordinal = round; s.slip_index = i as u8; s.generate_utxoset_key(); if s.amount > 0 { utxo.insert(s.utxoset_key, true); } tx.from.push(s); }
+        for i in 0..n_out { let mut s = Slip::default(); s.public_key = [2u8; 33]; s.amount = if rng.below(4) == 0 { 0 } else { 1 + rng.below(1000) }; s.block_id = 5; s.tx_ordinal = round; s.slip_index = i as u8; s.generate_utxoset_key(); tx.to.push(s); }
+        let before = utxo.clone();
+        tx.on_chain_reorganization(&mut utxo, true);
+        for s in tx.from.iter() { if s.amount > 0 && utxo.get(&s.utxoset_key) == Some(&true) { witness(format!("round {}: an input is still spendable after winding the transaction that spends it", round)); } }
+        for s in tx.to.iter() { if s.amount > 0 && utxo.get(&s.utxoset_key) != Some(&true) { witness(format!("round {}: an output is not spendable after winding the transaction that creates it", round)); } }
+        tx.on_chain_reorganization(&mut utxo, false);
+        let spendable = |u: &UtxoSet| { let mut v: Vec<_> = u.iter().filter(|(_, x)| **x).map(|(k, _)| *k).collect(); v.sort(); v };
+        if spendable(&utxo) != spendable(&before) {
+            witness(format!("round {}: transaction with inputs {:?} and outputs {:?}: after wind + unwind the spendable set has {} entries, before it had {} — unwinding did not give the spent inputs back (or left created outputs behind)",
+                round, tx.from.iter().map(|s| s.amount).collect::<Vec<_>>(), tx.to.iter().map(|s| s.amount).collect::<Vec<_>>(), spendable(&utxo).len(), spendable(&before).len()));
+        }
+    }
+}
